@@ -48,6 +48,12 @@ func (l *Log) Addf(format string, a ...interface{}) {
 func (l *Log) Hash() string {
 	h := sha256.New()
 	for _, s := range l.Lines {
+		// Disk-call lines carry file names the library is free to choose at
+		// random (temporary files): they are shown, not hashed. Everything the
+		// properties speak about (requests, answers, results, violations) is.
+		if strings.Contains(s, " disk ") {
+			continue
+		}
 		h.Write([]byte(s))
 		h.Write([]byte{'\n'})
 	}
